@@ -308,7 +308,15 @@ def h_eq_add(y, m, dd):
         a = relativedelta(days=days, months=months, weekday=mk(w, form_a))
         b = relativedelta(days=days, months=months, weekday=mk(w, form_b))
         ctx.check(a == b, "weekday forms int / MO / MO(1) / MO(None) not equal", key="wd-forms-eq")
-        ra, rb = dt + a, dt + b
+        def add(r):
+            try:
+                return dt + r
+            except (ValueError, OverflowError):      # the sum leaves years 1..9999
+                return None
+        ra, rb = add(a), add(b)
+        ctx.check((ra is None) == (rb is None), "equal deltas: one sum raises, the other does not", key="eq-add-raises")
+        if ra is None:
+            return -1
         ctx.check(ra == rb, "equal deltas give different sums", key="eq-add")
         return ra.toordinal()
     return fn, types
